@@ -166,8 +166,26 @@ func cmdCheck(args []string) int {
 		defer rp.Close()
 		if len(cands) > 0 {
 			outs := rp.Run(cands)
+			var mon *sx.Engine
 			for k, v := range cands {
 				o := outs[k]
+				if strings.HasPrefix(v.Label, "monitor:") && !strings.HasPrefix(o, "check-failed") && !strings.HasPrefix(o, "panic") {
+					// obligations about the engine's write monitor cannot fail natively (the
+					// monitor only exists in the engine): they are confirmed by replaying the
+					// model through the engine in concrete mode instead
+					if mon == nil {
+						sol := newSolver("", *timeout)
+						defer sol.Close()
+						mon = sx.NewEngine(ld.Prog, ld.Sizes, sol, initAllowed)
+						for _, d := range prop.Dirs {
+							mon.InitPackage(ld.Pkgs[importPath(d)])
+						}
+					}
+					r := mon.RunConcrete(ld.Harness[v.Harness], v.Harness, v.Params, v.Inputs, v.UF, sx.Limits{MaxPaths: 1, MaxSteps: 50000000, MaxFan: 1})
+					if strings.HasPrefix(r.ConcreteOutcome, "check-failed "+v.Label) {
+						o = "check-failed " + v.Label + " (engine concrete replay; native run: " + o + ")"
+					}
+				}
 				if strings.HasPrefix(o, "check-failed") || strings.HasPrefix(o, "panic") {
 					c := confirmed{V: v, Native: o}
 					c.Path = saveReplay(prop.ID, v)
